@@ -4,75 +4,111 @@ import Driver.Common
 Trace-refinement driver for C02 (Redis backend): replays command-level executions of the REAL
 kvs/redis client (every Redis command of every client released one at a time by the harness) through
 `RedisConc.step`.  case line: `case <id> <number of clients>`.
-  call t <op…>  | ok          create k v | get k | getmany k1,k2 | put k v | putmany k1=v1,k2=v2 | cas k ver v | delete k
-  cmd t         | <name> <reply>    the model computes the command client t issues next and the server's reply
-  ret t         | <result>          the model's `done r`
+  call t <op…>  | ok          create k v [x<abs>] | get k | getmany k1,k2 | put k v [x<abs>] |
+                              putmany k1=v1[@<abs>],k2=v2[@<abs>] | cas k ver v [x<abs>] | delete k
+                              (`x<abs>` / `@<abs>`: absolute expiry in ms; absent = no expiry; value `-` = empty)
+  tick d        | now <new now>     the clock advances by d ms (`tick-blocked …` if a client is inside a TTL window)
+  cmd t         | <name> <reply>    the model computes the command client t issues next and the server's reply;
+                                    a write with expiry e is labelled `… px<e - now>` (the relative TTL it carries)
+  ret t         | <result>          the model's `done r` (`ok` for the loop path of PutMany)
 Versions are ordinals of the write that stored them (0 = a version never stored).
+Records are shown as `val:ver`, or `val:ver@<exp>` when they have an expiry.
 -/
 namespace DrvRedisTrace
 open Kv RedisConc Drv
 
 def showVal (v : String) : String := if v.isEmpty then "-" else v
 
-def showRec (r : Rec) : String := s!"{showVal r.val}:{r.ver}"
+def showExp : Option Nat → String
+  | some e => s!"@{e}"
+  | none => ""
+
+def showRec (r : Rec) : String := s!"{showVal r.val}:{r.ver}{showExp r.exp}"
 
 def showOut : Out → String
   | .okVer v => s!"okVer {v}"
   | .errExist (some v) => s!"errExist {v}"
   | .errExist none => "errExist 0"
-  | .record v ver _ => s!"rec {showVal v}:{ver}"
+  | .record v ver e => s!"rec {showVal v}:{ver}{showExp e}"
   | .recs l => "recs [" ++ ",".intercalate (l.map fun x => match x with
-      | some (v, ver, _) => s!"{showVal v}:{ver}" | none => "nil") ++ "]"
+      | some (v, ver, e) => s!"{showVal v}:{ver}{showExp e}" | none => "nil") ++ "]"
   | .ok => "ok" | .errNotExist => "errNotExist" | .errConflict => "errConflict"
   | .keys l => s!"keys {l}" | .waitNil => "waitNil" | .blocks => "blocks" | .otherErr => "other"
 
 def showGet (s : St) (k : String) : String :=
-  match s.srv.live 0 k with
+  match s.srv.live s.now k with
   | some r => "get " ++ showRec r
   | none => "get nil"
+
+/-- the relative TTL a write command carries: ` px<e - now>`; nothing without expiry -/
+def showPx (s : St) : Option Nat → String
+  | some e => s!" px{e - s.now}"
+  | none => ""
 
 /-- name and reply of the command client t issues next (computed on the state BEFORE the command) -/
 def cmdLabel (s : St) (t : Nat) : String :=
   match s.pc[t]? with
-  | some (.create1 k _) => match s.srv.live 0 k with
+  | some (.create1 k _ e) => match s.srv.live s.now k with
     | some _ => "setnx 0"
-    | none => s!"setnx 1 {s.srv.nextVer}"
-  | some (.create2 k _) => showGet s k
+    | none => s!"setnx 1 {s.srv.nextVer}{showPx s e}"
+  | some (.create2 k _ _) => showGet s k
   | some (.get k) => showGet s k
-  | some (.getMany ks) => "mget [" ++ ",".intercalate (ks.map fun k => match s.srv.live 0 k with
+  | some (.getMany ks) => "mget [" ++ ",".intercalate (ks.map fun k => match s.srv.live s.now k with
       | some r => showRec r | none => "nil") ++ "]"
-  | some (.put _ _) => s!"set OK {s.srv.nextVer}"
+  | some (.put _ _ e) => s!"set OK {s.srv.nextVer}{showPx s e}"
   | some (.putMany rs) => "mset OK " ++ ",".intercalate ((List.range rs.length).map fun i => toString (s.srv.nextVer + i))
-  | some (.del k) => match s.srv.live 0 k with
+  | some (.putLoop ((_, _, e) :: _)) => s!"set OK {s.srv.nextVer}{showPx s e}"
+  | some (.del k) => match s.srv.live s.now k with
     | some _ => "del 1"
     | none => "del 0"
-  | some (.casWatch _ _ _) => "watch OK"
-  | some (.casGet k _ _) => showGet s k
-  | some (.casExec _ _ _) => match s.watch[t]? with
-    | some (some (_, false)) => s!"exec ok {s.srv.nextVer}"
+  | some (.casWatch _ _ _ _) => "watch OK"
+  | some (.casGet k _ _ _) => showGet s k
+  | some (.casExec _ _ _ e) => match s.watch[t]? with
+    | some (some (_, false)) => s!"exec ok {s.srv.nextVer}{showPx s e}"
     | _ => "exec nil"
   | _ => "no-command-expected"
 
 def showPc : Pc → String
-  | .idle => "idle" | .create1 k _ => s!"create1({k})" | .create2 k _ => s!"create2({k})" | .get k => s!"get({k})"
-  | .getMany _ => "getMany" | .put k _ => s!"put({k})" | .putMany _ => "putMany" | .del k => s!"del({k})"
-  | .casWatch k v _ => s!"casWatch({k},{v})" | .casGet k v _ => s!"casGet({k},{v})" | .casExec k v _ => s!"casExec({k},{v})"
+  | .idle => "idle" | .create1 k _ e => s!"create1({k}{showExp e})" | .create2 k _ e => s!"create2({k}{showExp e})"
+  | .get k => s!"get({k})"
+  | .getMany _ => "getMany" | .put k _ e => s!"put({k}{showExp e})" | .putMany _ => "putMany"
+  | .putLoop rs => s!"putLoop({rs.map fun r => r.1 ++ showExp r.2.2})" | .loopDone => "loopDone"
+  | .del k => s!"del({k})"
+  | .casWatch k v _ e => s!"casWatch({k},{v}{showExp e})" | .casGet k v _ e => s!"casGet({k},{v}{showExp e})"
+  | .casExec k v _ e => s!"casExec({k},{v}{showExp e})"
   | .done r => s!"done({showOut r})"
 
 def showState (s : St) : String :=
-  s!"store={s.srv.store.map fun e => (e.1, showRec e.2)} next={s.srv.nextVer} pcs={s.pc.map showPc} watch={s.watch}"
+  s!"now={s.now} store={s.srv.store.map fun e => (e.1, showRec e.2)} next={s.srv.nextVer} pcs={s.pc.map showPc} watch={s.watch}"
 
 def unval (v : String) : String := if v = "-" then "" else v
 
+/-- `x<abs>`: an absolute expiry -/
+def parseX (w : String) : Option Nat :=
+  if w.startsWith "x" then (w.drop 1).toNat? else none
+
+/-- `k=v` or `k=v@<abs>` -/
+def parseKv (p : String) : Option (String × String × Option Nat) :=
+  match p.splitOn "=" with
+  | [k, ve] => match ve.splitOn "@" with
+    | [v] => some (k, unval v, none)
+    | [v, e] => e.toNat?.map fun n => (k, unval v, some n)
+    | _ => none
+  | _ => none
+
 def parseOp : List String → Option Op
   | ["create", k, v] => some (.create k (unval v) none)
+  | ["create", k, v, x] => (parseX x).map fun e => .create k (unval v) (some e)
   | ["get", k] => some (.get k)
   | ["getmany", ks] => some (.getMany (ks.splitOn ","))
   | ["put", k, v] => some (.put k (unval v) none)
-  | ["putmany", rs] => ((rs.splitOn ",").mapM fun (p : String) => match p.splitOn "=" with
-      | [k, v] => some (k, unval v, (none : Option Nat))
-      | _ => none).map .putMany
+  | ["put", k, v, x] => (parseX x).map fun e => .put k (unval v) (some e)
+  | ["putmany", rs] => ((rs.splitOn ",").mapM parseKv).map .putMany
   | ["cas", k, ver, v] => ver.toNat?.map fun n => .cas k n (unval v) none
+  | ["cas", k, ver, v, x] => do
+    let n ← ver.toNat?
+    let e ← parseX x
+    pure (.cas k n (unval v) (some e))
   | ["delete", k] => some (.delete k)
   | _ => none
 
@@ -105,7 +141,15 @@ def comp : Component where
           | some (.done r) => match step s (.ret t r) with
             | some (s', _) => (some s', showOut r)
             | none => (none, "ret-rejected")
+          | some .loopDone => match step s (.ret t .ok) with
+            | some (s', _) => (some s', showOut .ok)
+            | none => (none, "ret-rejected")
           | _ => (none, s!"return-not-expected {showState s}"))
+      | ["tick", d] => do
+        let d ← d.toNat?
+        pure (match step s (.tick d) with
+          | some (s', _) => (some s', s!"now {s'.now}")
+          | none => (none, s!"tick-blocked {showState s}"))
       | _ => none
 
 end DrvRedisTrace
